@@ -351,6 +351,71 @@ def run_loss(case, ctx):
         ctx.nontrivial({"a": algo, "o": spec.get("obs"), "d": dones, "g": g})
 
 
+def run_ma_loss(case, ctx):
+    """MADDPG / MATD3: the critic loss learn() reports for EVERY agent is the mean squared error against
+    r_i + gamma (1 - done_i) Q_target_i(next observations of all agents, target actors' next actions) - with the agent's OWN done
+    flag: agents of a PettingZoo environment can finish individually, so the flags of one row may differ between agents."""
+    spec = case["spec"]
+    algo = spec["algo"]
+    n = case["n"]
+    g = case["gamma"]
+    spec = dict(spec, hp=dict(spec.get("hp", {}), batch_size=n, gamma=g))
+    site = f"C08/loss/{algo}"
+    try:
+        agent = ag.build(spec)
+        nag = len(agent.agent_ids)
+        dones = [[(case["dones"][(i * nag + j) % len(case["dones"])]) for j in range(nag)] for i in range(n)]
+        perturb_targets(agent, case["pseed"])
+        batch = ag.ma_batch(agent, spec, n, case["bseed"], dones=dones)
+    except Exception as e:  # noqa: BLE001
+        ctx.label(f"setup-failed:{type(e).__name__}")
+        return
+    ids = list(agent.agent_ids)
+    states, actions, rewards, next_states, dn = batch
+    want = {}
+    with torch.no_grad():
+        st_ = agent.preprocess_observation({k: (v.clone() if hasattr(v, "clone") else copy.deepcopy(v)) for k, v in states.items()})
+        ns_ = agent.preprocess_observation({k: (v.clone() if hasattr(v, "clone") else copy.deepcopy(v)) for k, v in next_states.items()})
+        na = [agent.actor_targets[i](ns_[a]) for i, a in enumerate(ids)]
+        S, NS = agent.stack_critic_observations(st_), agent.stack_critic_observations(ns_)
+        A = torch.cat([actions[a] for a in ids], dim=1)
+        NA = torch.cat(na, dim=1)
+        for i, a in enumerate(ids):
+            r, d = rewards[a].double().reshape(n, 1), dn[a].double().reshape(n, 1)
+            if algo == "MADDPG":
+                y = r + (1 - d) * g * agent.critic_targets[i](NS, NA).double()
+                want[a] = float(((agent.critics[i](S, A).double() - y) ** 2).mean())
+            else:
+                qn = torch.min(agent.critic_targets_1[i](NS, NA), agent.critic_targets_2[i](NS, NA)).double()
+                y = r + (1 - d) * g * qn
+                want[a] = float(((agent.critics_1[i](S, A).double() - y) ** 2).mean() + ((agent.critics_2[i](S, A).double() - y) ** 2).mean())
+    with ctx.promised(site + "/learn"):
+        ag.seed_all(case["lseed"])
+        out = agent.learn(copy.deepcopy(batch))
+    hetero = any(len(set(row)) > 1 for row in dones)
+    for a in ids:
+        got = out[a][1] if isinstance(out[a], (tuple, list)) else out[a]
+        got = float(got)
+        ctx.check(abs(got - want[a]) <= 1e-4 * max(1.0, abs(want[a])), f"{site}/not_the_bellman_loss" + ("/per_agent_done_flags" if hetero else ""),
+                  "critic loss of an agent differs from the loss recomputed with target r_i + gamma (1 - done_i) Q_target_i(next)",
+                  agent=a, got=got, want=want[a], gamma=g, dones=dones)
+    ctx.label(f"algo={algo}")
+    ctx.label("ma-loss:per-agent-done-flags-differ" if hetero else "ma-loss:shared-done-flags")
+    if hetero:
+        ctx.nontrivial({"a": algo, "o": spec.get("obs"), "d": dones, "g": g, "ma": 1})
+
+
+@st.composite
+def ma_loss_strategy(draw, tier):
+    algo = draw(st.sampled_from(engine.stratum(["MADDPG", "MATD3"])))
+    spec = {"algo": algo, "obs": draw(st.sampled_from(["vector", "vector", "image"])), "obsv": draw(st.integers(0, 2)), "actv": draw(st.integers(0, 2)),
+            "seed": draw(st.integers(0, 9999)), "act": "box"}
+    n = draw(st.integers(2, 6))
+    return {"spec": spec, "n": n, "gamma": draw(st.sampled_from([0.0, 0.5, 0.9, 0.99, 1.0])),
+            "dones": draw(st.lists(st.integers(0, 1), min_size=1, max_size=18)), "pseed": draw(st.integers(0, 999)),
+            "bseed": draw(st.integers(0, 999)), "lseed": draw(st.integers(0, 999))}
+
+
 def run_stale(case, ctx):
     """The update a learn step computes is a function of (weights, optimizer state, counters, batch) only: an agent that has just
     taken k consecutive learn steps and its faithful clone (same weights / optimizer state / counters, but no left-over
@@ -514,6 +579,9 @@ PROPERTY = Property(
         Obligation("loss_differential", run_loss, strategy=loss_strategy,
                    examples={"quick": 50, "thorough": 500}, shards={"quick": 4, "thorough": 16},
                    shrink_budget={"quick": 60, "thorough": 300}),
+        Obligation("multi_agent_loss", run_ma_loss, strategy=ma_loss_strategy,
+                   examples={"quick": 40, "thorough": 400}, shards={"quick": 2, "thorough": 16},
+                   shrink_budget={"quick": 40, "thorough": 300}),
         Obligation("rainbow_loss", run_rainbow_loss, strategy=rainbow_loss_strategy,
                    examples={"quick": 60, "thorough": 600}, shards={"quick": 3, "thorough": 16},
                    shrink_budget={"quick": 40, "thorough": 300}),
